@@ -47,6 +47,16 @@ class C05(Prop):
                 sizes = rng.sample(range(1, n + 2), 6) + [n, n + 1, max(1, n - 1), None]
             for bs in sizes:
                 yield Case('sort', (bs, rev, key, t), {'cache': rng.random() < 0.5})
+        # key=None on ragged rows: the key is the whole row, cells missing or beyond the header count as None / are ignored
+        for _ in range(30 if tier == 'quick' else 300):
+            hdr = ('a', 'b')
+            rows = []
+            for _i in range(rng.choice([2, 3, 5])):
+                w = rng.choice([0, 1, 2, 2, 3])
+                rows.append(tuple(rng.choice([None, 0, 1]) for _j in range(w)))
+            t = (hdr,) + tuple(rows)
+            for bs in (None, 1, 2):
+                yield Case('sort', (bs, rng.random() < 0.3, None, t), {'cache': rng.random() < 0.5})
         if tier == 'thorough':
             # exhaustive small scope: all tables of <= 4 rows over a 4-value key alphabet x all buffersizes
             alpha = [None, 0, 1, 'a']
